@@ -12,7 +12,10 @@ def classify(c, ob, k, spec, spec_ret=None):
     up0 = oc.parse_ser(ob['ops'][k - 1]['upper'] if k else ob['raw'][0]); up1 = oc.parse_ser(b.get('upper'))
     sig = {'class': 'other', 'op': o['k']}
     if d and b['ret'] != 'panic' and all(x[1] == 'xattr-missing' for x in d) and \
-            all(oc.tree_at(up1, x[0]) is not None and (x[0] == '' or oc.tree_at(up0, x[0]) is None) for x in d):
+            all(oc.tree_at(up1, x[0]) is not None and (x[0] == '' or oc.tree_at(up0, x[0]) is None or
+                # a hard link to the source copied up by this very request, created over an upper whiteout
+                (o['k'] == 'link' and x[0] == o.get('q') and oc.tree_at(up0, x[0])[0] == 'w' and any(y[0] == o['p'] for y in d)))
+                for x in d):
         sig = {'class': 'copy-up-drops-xattrs'}
     # same defect seen through the result code: the attribute to remove was lost by the copy-up done for this very request
     if not d and o['k'] == 'removexattr' and b['ret'] == '61' and spec_ret == '' and \
@@ -46,7 +49,10 @@ def analyse(cases, obs, bindir, tag, findings, broken, stats):
     tie_fail, errs = oc.eval_bools('c10_tie_' + tag, [oc.expr_tie(c, obs[c['id']]) for c in cases])
     if errs: broken.append({'kind': 'correspondence', 'name': 'Coq evaluation of the cases failed', 'log': errs[0]['log']})
     # property predicate on the implementation's observations
-    uni_fail, e2 = oc.eval_bools('c10_uni_' + tag, [oc.expr_union(c, obs[c['id']]) for c in cases])
+    # (the 96 enumerated open-flag cases share two layer sets: the union of the initial view is evaluated once for each)
+    uni = [i for i, c in enumerate(cases) if not oc.is_flagcase(c) or c['id'] in ('o1r', 'o0r')]
+    uni_fail, e2 = oc.eval_bools('c10_uni_' + tag, [oc.expr_union(cases[i], obs[cases[i]['id']]) for i in uni])
+    uni_fail = set(uni[i] for i in uni_fail)
     up = [i for i, c in enumerate(cases) if c['upper']]
     ord_fail, e3 = oc.eval_bools('c10_ord_' + tag, [oc.expr_ordinary(cases[i], obs[cases[i]['id']]) for i in up])
     ord_fail = set(up[i] for i in ord_fail)
@@ -126,13 +132,15 @@ def run_check(tier, seed):
                       'layers are PassthroughFs instances that were import()ed but not init()ed, as the repository\'s overlay example creates them']
     findings = []; broken = []
     std_audit(ev, PROP, broken)
+    ok_ev, out_ev = coq_make(['Model/OverlayEval.vo'])      # the case evaluators live outside the proofs' cone (Uint63 hashes)
+    if not ok_ev: broken.append({'kind': 'correspondence', 'name': 'coq/Model/OverlayEval.v does not build', 'log': out_ev[-1500:]})
     ok, out, bindir = cargo_build(['overlay'])
     stats = {'evals': 0, 'shapes': set(), 'hist': {}, 'tie_cases': 0}
     if not ok:
         broken.append({'kind': 'harness-build', 'log': out[-3000:]})
     else:
         n = 40 if tier == "quick" else 1500
-        cases, obs, badh = oc.explore(PROP, seed, n, False, bindir, 'c10', patterns=('full' if tier == 'thorough' else True))
+        cases, obs, badh = oc.explore(PROP, seed, n, False, bindir, 'c10', patterns=('full' if tier == 'thorough' else True), open_flags_enum=True)
         if badh: broken.append({'kind': 'harness', 'name': 'harness output incomplete or layers not materialised as generated', 'cases': badh[:5]})
         analyse(cases, obs, bindir, 'a', findings, broken, stats)
         if broken and not [f for f in findings if not finding_known(f, known_findings(PROP))]:
